@@ -95,6 +95,15 @@ def run_history(case):
                 raise Stall(f"{pkts[0]} packets built in one loop iteration")
             super().__init__()
 
+        def append(self, *a, **kw):
+            # a send loop that retries the same datagram without yielding
+            # builds no packets but appends for ever
+            pkts[0] += 1
+            if pkts[0] > 5000:
+                raise Stall(f"{pkts[0]} packet operations in one loop "
+                            "iteration")
+            return super().append(*a, **kw)
+
     async def main(loop):
         ec = EtherCat("vf")
         ec.send_queue = asyncio.Queue()
